@@ -83,6 +83,35 @@ def gen_value(rng, kind):
     raise ValueError(kind)
 
 
+def respell_number(rng, v):
+    """An equal number of another type (None if there is no exact one)."""
+    from fractions import Fraction
+    if isinstance(v, bool) or isinstance(v, int):
+        x = Fraction(int(v))
+    elif isinstance(v, str):
+        n, d = v.split('/')
+        x = Fraction(int(n), int(d))
+    elif isinstance(v, dict) and 'f' in v:
+        x = Fraction(float(v['f']))
+    elif isinstance(v, dict) and 'np' in v:
+        x = Fraction(float(v['np']))
+    else:
+        return None
+    spellings = []
+    if x.denominator == 1:
+        spellings.append(int(x))
+        if x == 1:
+            spellings.append(True)
+    if Fraction(float(x)) == x:
+        spellings.append({'f': float(x)})
+        import numpy as _np
+        if Fraction(float(_np.float32(float(x)))) == x:
+            spellings.append({'np': float(x), 'dt': 'float32'})
+    spellings.append(f'{x.numerator}/{x.denominator}')
+    spellings = [w for w in spellings if type(w) is not type(v) or (isinstance(w, dict) and sorted(w) != sorted(v))]
+    return rng.choice(spellings) if spellings else None
+
+
 # ------------------------------------------------------------------------------------- algebras
 
 def gen_algebra(rng, d, tier):
@@ -311,6 +340,15 @@ def gen_op(rng, ai, pool, ctx):
         if u < (0.08 if ctx['valkind'] != 'nd' else 0.3):
             num = {'k': 'num', 'v': gen_value(rng, ctx['valkind'] if ctx['valkind'] != 'nd' or rng.random() < 0.2
                                               else rng.choice(['int', 'float']))}
+            # the same number in another type on the operator that saw it before (3, 3.0, Fraction(3), np.float32(3),
+            # True/1 are equal and hash alike: anything keyed by the number itself confuses them)
+            hist = ctx.setdefault('numhist', {}).setdefault(ai, [])
+            if hist and rng.random() < 0.5:
+                name0, v0 = rng.choice(hist)
+                v1 = respell_number(rng, v0)
+                if v1 is not None and (form != 'infix' or name0 in INFIX):
+                    name, num = name0, {'k': 'num', 'v': v1}
+            hist.append((name, num['v']))
             if rng.random() < 0.5 and name in INFIX:
                 a, form = num, 'infix'            # reflected operator
             elif a.get('k') != 'num':
